@@ -110,4 +110,11 @@ CHECKS.update({
   "note": "Blind spot (stated in DESIGN.md): an out-of-bounds *read* performed inside uninstrumented libcrypto that is followed by a rejection (e.g. decrypt of < 16 bytes without the lower-bound test) is visible neither to ASan nor to the contract. Functional disagreement with the reference codec/cipher is counted as a class, not reported here (C02/C17 decide it). Constructors with cipher names the library never uses are out of scope.",
  },
 })
+CHECKS.update({
+ "C20": {
+  "technique": "metamorphic paired execution (logging off / qlog / secrets log / both) of Hypothesis-generated deterministic scenarios with a tap on the QuicConnection API; qlog documents checked against the packets actually exchanged",
+  "text": "Scenarios are generated from the generators of C01 (simulated networks: loss, duplication, reordering, rebinding, Retry, version negotiation, key update), C05 (frames from a key-holding peer, arbitrary/mutated datagrams in nine states, hostile TLS flights in both roles) and C14/C16 (HTTP/3 traffic in generated chunkings, optionally mutated). Each scenario is a pure function of its case (randomness, key generation and the TLS clock are pinned) and runs four times; logging arguments are injected into every QuicConfiguration the scenario builds. The recorded observation - every event, every datagram byte, every timer value, every exception leaving an API call and a digest of the final connection state (streams, flow control, congestion, RTT, packet spaces, connection IDs) - must be identical in all four modes. With qlog on, json.dumps(QuicLogger.to_dict()) must succeed, packet_sent records must equal the packets in the returned datagrams (type, length, order), packet_received records must match delivered packets, and in simulator scenarios each delivered datagram adds one packet_received/packet_dropped record per packet (up to a record whose trigger abandons the rest of the datagram). Secrets-log lines must be well formed.",
+  "note": "A difference is reported only after the baseline has been re-run and reproduced itself and the differing mode has reproduced the difference. qlog timestamps (wall clock) are not compared. The content of logged frames is not compared with the wire (not part of the statement).",
+ },
+})
 PENDING = {}
